@@ -550,7 +550,13 @@ func ext۰reflect۰Value۰Pointer(fr *frame, args []value) value {
 	case rtype:
 		rt := v
 		return uptr{typ: &rt}
-	case *ssa.Function, *closure, *nativeFn, *omap, *channel:
+	case *ssa.Function:
+		return uptr{cell: fr.i.codePointer(v)}
+	case *closure:
+		// like the real runtime: the code pointer, shared by all closures of
+		// one function literal
+		return uptr{cell: fr.i.codePointer(v.Fn)}
+	case *nativeFn, *omap, *channel:
 		c := value(v)
 		return uptr{cell: &c}
 	case uptr:
